@@ -55,6 +55,7 @@ def twin_atoms(entries):
 def relabel(draw, structure):
     entries = [e.copy() if isinstance(e, Atom) else e for e in structure.entries]
     kinds = []
+    clamped = False
     atoms = pdbio.atoms_of(entries)
     nops = draw(st.integers(1, 2))
     for _ in range(nops):
@@ -120,11 +121,12 @@ def relabel(draw, structure):
                         num, ic = n, codes[k]
                     if not -999 <= num <= 9999:
                         num = max(-999, min(9999, num))
+                        clamped = True            # two residues could end up with one number: not a relabelling
                     for a in res:
                         a.resnum, a.icode = num, ic
     # uniqueness of residue identifiers (chains sharing an id after the relabelling get disjoint numbers)
     seen = {}
-    ok = True
+    ok = not clamped
     for (m, c, n, i, t), ats in pdbio.residues(entries):
         if (m, c, n, i) in seen:
             ok = False
